@@ -354,6 +354,9 @@ def _sync_outcome(ref, raw, key_, ct):
 
 # ------------------------------------------------------------------ one failing dbutils call, then a retry
 
+NCALLS = [0]   # number of dbutils calls the last faulty operation made (the sweep runs over all of them)
+
+
 class FailOnce:
     """fs proxy: the i-th call raises once (a transient service error); everything else goes through"""
 
@@ -389,6 +392,7 @@ def check_fault(ct, target, at):
         first = apply_raw(s, op)
         fired = proxy.fired
         proxy._at = -1
+        NCALLS[0] = max(NCALLS[0], proxy.n)
         if fired is None:
             return probs, None
         s.db.fs = proxy._fs
@@ -398,6 +402,57 @@ def check_fault(ct, target, at):
         for lp in [("load", "/p/a"), ("load", "/p/b"), ("load", "/.q/x"), ("load", "/q/y/z")]:
             for k, w in apply(s, lp):
                 probs.append((k.replace("C19|", f"C19|after_fault@{fired[0]}|", 1), f"after a failed {fired} during {op} and a retry: {w}"))
+        return probs, fired
+    finally:
+        teardown(s)
+
+
+def check_mixed(ct1, ct2, target):
+    """one data directory used first with commit type ct1, then with ct2 (a configuration change): what ct2 promises holds for
+    the results kept again under it, changed or not"""
+    import dds
+    s = build(ct1)
+    probs = []
+    try:
+        if s.open_result[0] != "ok":
+            return probs
+        op = {"a": ("keep", "a"), "b": ("keep", "b"), "eval": ("eval",)}[target]
+        if apply(s, op):
+            return probs   # reported by the plain sequences
+        dds.set_store("dbfs", internal_dir="dbfs:/int", data_dir="dbfs:/data", dbutils=s.db, commit_type=ct2)
+        s.ct = ct2
+        for k, w in apply(s, op):
+            probs.append((k.replace("C19|", f"C19|after_commit_type={ct1}|", 1), f"the data directory was first used with commit_type={ct1!r}: {w}"))
+        return probs
+    finally:
+        teardown(s)
+
+
+def check_fault_then_revert(ct, target, at):
+    """result kept (X=0); code changed (X=1) and kept again with the at-th dbutils call failing once; code reverted (X=0) and
+    kept: the data directory holds what the commit type promises for the reverted result"""
+    import dds
+    s = build(ct)
+    probs = []
+    try:
+        if s.open_result[0] != "ok":
+            return probs, None
+        op = {"a": ("keep", "a"), "b": ("keep", "b"), "eval": ("eval",)}[target]
+        if apply(s, op):
+            return probs, None
+        apply(s, ("set", 1))
+        proxy = FailOnce(s.db.fs, at)
+        s.db.fs = proxy
+        first = apply_raw(s, op)
+        fired = proxy.fired
+        proxy._at = -1
+        NCALLS[0] = max(NCALLS[0], proxy.n)
+        s.db.fs = proxy._fs
+        if fired is None:
+            return probs, None
+        apply(s, ("set", 0))
+        for k, w in apply(s, op):
+            probs.append((k.replace("C19|", f"C19|revert_after_fault@{fired[0]}|", 1), f"after a failed {fired} during the re-keep with changed code ({first[0]}) and a revert: {w}"))
         return probs, fired
     finally:
         teardown(s)
@@ -433,16 +488,35 @@ def run(tier, seed):
     for ct in ("full", "links_only", "none"):
         for target in ("a", "b", "eval"):
             at = 0
-            while at < 60:
+            NCALLS[0] = 1
+            while at < max(NCALLS[0], 1) and at < 200:
                 pr, fired = check_fault(ct, target, at)
-                if fired is None and at > 0 and check_fault(ct, target, at + 1)[1] is None:
-                    break
-                n_fault += 1
+                if fired is not None:
+                    n_fault += 1
                 for k, w in pr:
                     res.violations.append(Violation(P, k, w, {"mode": "fault", "ct": ct, "target": target, "at": at}))
                 at += 1
+    # the same sweep, the failing call inside a re-keep of changed code that is then reverted
+    for ct in ("full", "links_only"):
+        for target in ("a", "eval"):
+            at = 0
+            NCALLS[0] = 1
+            while at < max(NCALLS[0], 1) and at < 200:
+                pr, fired = check_fault_then_revert(ct, target, at)
+                if fired is not None:
+                    n_fault += 1
+                for k, w in pr:
+                    res.violations.append(Violation(P, k, w, {"mode": "fault_revert", "ct": ct, "target": target, "at": at}))
+                at += 1
+    # a data directory first used with another commit type
+    n_mixed = 0
+    for ct1, ct2 in (("links_only", "full"), ("none", "full"), ("none", "links_only")):
+        for target in ("a", "b", "eval"):
+            n_mixed += 1
+            for k, w in check_mixed(ct1, ct2, target):
+                res.violations.append(Violation(P, k, w, {"mode": "mixed", "ct1": ct1, "ct2": ct2, "target": target}))
     res.violations.sort(key=lambda v: len(v.replay.get("ops", [])))
-    trans += n_fault
+    trans += n_fault + n_mixed
     res.coverage = dict(fault_points=n_fault, states=states, transitions=trans + n_leg, traces_validated_against_impl=trans + n_leg, per_commit_type=per,
                         legacy_cases=n_leg, exhaustive=False,
                         rule="per commit-type spelling: BFS over {keep str result, keep bytes result, eval with two nested keeps (one pickled, "
@@ -461,6 +535,10 @@ def replay(case):
         return [Violation(P, k, w, case) for k, w in check_fault(case["ct"], case["target"], case["at"])[0]]
     if case["mode"] == "legacy":
         return [Violation(P, k, w, case) for k, w in check_legacy(case["i"])]
+    if case["mode"] == "fault_revert":
+        return [Violation(P, k, w, case) for k, w in check_fault_then_revert(case["ct"], case["target"], case["at"])[0]]
+    if case["mode"] == "mixed":
+        return [Violation(P, k, w, case) for k, w in check_mixed(case["ct1"], case["ct2"], case["target"])]
     s = build(case["ct"])
     try:
         for op in case["ops"]:
